@@ -97,6 +97,8 @@ def impl_fields(res):
             return {"tok": "OK " + ",".join(cps(bytes.fromhex(p).decode("utf8")) if p != "-" else "-" for p in t[3:].split(","))}
         return {"tok": "ERR" if t in ("ERR", "PANIC") else t}
     out = {}
+    # byte level (UTF-8 model tie): the raw bytes the Rust writer produced, untouched by any Python decoding
+    out["binhex"] = res.get("bin", "ERR") if res.get("bin") not in ("PANIC",) else "ERR"
     for k, v in res.items():
         if v in ("ERR", "PANIC"):
             out[k] = "ERR"
